@@ -82,7 +82,8 @@ pub fn refusal_probe(r: &mut crate::run::Runner, step: &Step) {
         Some(x) => x,
         None => return,
     };
-    if limit == 0 || wrong_side(receiving, qv, limit) {
+    let is_liq = matches!(step.op, Op::Liquidate { .. });
+    if limit == 0 || (!is_liq && wrong_side(receiving, qv, limit)) {
         return;
     }
     // the limit is satisfied by the quote, yet the call was refused
@@ -113,6 +114,21 @@ pub fn refusal_probe(r: &mut crate::run::Runner, step: &Step) {
             let pos_size = r.obs.position(*vamm, &t).map(|p| p.size).unwrap_or(0);
             let moved = alt.events.iter().filter(|e| e.ty == "wasm").flat_map(|e| e.attributes.iter()).find(|a| a.key == "base_asset_amount").and_then(|a| a.value.parse::<u128>().ok()).unwrap_or(0);
             if moved != pos_size.unsigned_abs() || !whole {
+                // the unlimited call liquidates partially: the limit that applies is the caller's scaled by the fraction
+                let pr = r.obs.eng.as_ref().map(|e| e.partial).unwrap_or(0);
+                let exq = alt.events.iter().filter(|e| e.ty == "wasm").flat_map(|e| e.attributes.iter()).find(|a| a.key == "quote_asset_amount").and_then(|a| a.value.parse::<u128>().ok());
+                if let (Some(exq), Some(scaled)) = (exq, mul_div(limit, pr, r.w.d)) {
+                    if moved != 0 && moved < pos_size.unsigned_abs() && pr > 0 {
+                        let tol = scaled / 1_000_000 + 2;
+                        let satisfied = if receiving { exq >= scaled.saturating_add(tol) } else { exq.saturating_add(tol) <= scaled };
+                        if satisfied {
+                            r.ev.violation("limit_refused_although_satisfied", &format!("engine,partial_liquidate,{}", if receiving { "long" } else { "short" }), json!({"executed_quote_without_limit": exq.to_string(), "limit": limit.to_string(), "fraction": pr.to_string(), "scaled_limit": scaled.to_string(), "error_with_limit": crate::run::tail(&out.err, 120)}));
+                        }
+                    }
+                }
+                return;
+            }
+            if wrong_side(receiving, qv, limit) {
                 return;
             }
         }
@@ -236,6 +252,22 @@ pub fn step(ctx: &Ctx, w: &World, ev: &mut Ev) {
                 ev.eval(true, &("engine_liquidate", receiving, rel(qv, *limit), ctx.out.ok, whole), || {
                     json!({"level": "engine", "liquidate": if receiving { "long" } else { "short" }, "size": pos.size.to_string(), "quoted_quote": qv.to_string(), "limit": limit.to_string(), "executed": ctx.out.ok, "whole": whole})
                 });
+            }
+            // partial liquidation: the fraction `partial` of the position is traded under the caller's limit scaled by the
+            // same fraction (tolerance: one millionth + 2 units for the rounding of the two scalings)
+            let pr = ctx.pre.eng.as_ref().map(|e| e.partial).unwrap_or(0);
+            if ctx.out.ok && !whole && *limit != 0 && moved != 0 && moved.unsigned_abs() < pos.size.unsigned_abs() && pr > 0 {
+                if let Some(scaled) = mul_div(*limit, pr, w.d) {
+                    let tol = scaled / 1_000_000 + 2;
+                    let dq = quote_moved(ctx, v);
+                    ev.eval(true, &("engine_partial_liquidate", receiving, dq >= scaled), || {
+                        json!({"level": "engine", "partial_liquidate": if receiving { "long" } else { "short" }, "fraction": pr.to_string(), "limit": limit.to_string(), "scaled_limit": scaled.to_string(), "executed_quote": dq.to_string()})
+                    });
+                    let bad = if receiving { dq.saturating_add(tol) < scaled } else { dq > scaled.saturating_add(tol) };
+                    if bad {
+                        ev.violation("limit_ignored", &format!("engine,partial_liquidate,{}", if receiving { "long" } else { "short" }), json!({"executed_quote": dq.to_string(), "limit": limit.to_string(), "fraction": pr.to_string(), "scaled_limit": scaled.to_string()}));
+                    }
+                }
             }
             if whole {
                 if wrong_side(receiving, qv, *limit) {
